@@ -559,6 +559,35 @@ pub fn f5() -> Fragment {
             extra.push(single(vec![fun("pick", &["x", "x"], var("x")), get(content(app("pick", vec![a1.clone(), a2.clone()])))]));
             extra.push(single(vec![fun("pick", &["x", "x"], obj(vec![prop("v", var("x"))])), get(content(app("pick", vec![a1, a2])))]));
         }
+        // a function whose body applies another function to an argument that *contains* its
+        // parameter, applied twice with different arguments (in one resource and in two)
+        {
+            let boxf = fun("box", &["y"], obj(vec![prop("box", var("y"))]));
+            for inner in [
+                obj(vec![prop("item", var("x"))]),
+                arr(var("x")),
+                E::Paren(Box::new(var("x"))),
+            ] {
+                let wrap = fun("wrap", &["x"], app("box", vec![inner]));
+                extra.push(single(vec![
+                    boxf.clone(),
+                    wrap.clone(),
+                    get(content(app("wrap", vec![E::Prim(Prim::Int)]))),
+                    get_at("second", content(app("wrap", vec![str_()]))),
+                ]));
+                extra.push(single(vec![
+                    boxf.clone(),
+                    wrap,
+                    get(content(obj(vec![prop("a", app("wrap", vec![E::Prim(Prim::Int)])), prop("b", app("wrap", vec![str_()]))]))),
+                ]));
+            }
+            // a parameter in function position
+            extra.push(single(vec![
+                boxf.clone(),
+                fun("ap", &["g"], app("g", vec![num()])),
+                get(content(obj(vec![prop("a", app("ap", vec![var("box")])), prop("b", app("ap", vec![var("box")]))]))),
+            ]));
+        }
         // the built-in function, used directly and through declarations
         extra.push(single(vec![
             let_("base", uri_lit(&["api"])),
@@ -1840,6 +1869,24 @@ pub fn f10() -> Fragment {
             Stmt::Res(rel(E::Uri(vec![Seg::Lit("people".into()), Seg::Var(Box::new(prop(b, num()))), Seg::Lit("keys".into())], None), vec![ok.clone()])),
         ]));
     }
+    // templated paths that differ only by the name of a variable are different paths, each with
+    // its own parameter
+    for (m1, m2) in [(Method::Get, Method::Get), (Method::Get, Method::Put)] {
+        programs.push(single(vec![
+            Stmt::Res(rel(E::Uri(vec![Seg::Lit("users".into()), Seg::Var(Box::new(prop("id", E::Prim(Prim::Int))))], None), vec![xfer(m1, E::Content(vec![], None))])),
+            Stmt::Res(rel(E::Uri(vec![Seg::Lit("users".into()), Seg::Var(Box::new(prop("login", str_())))], None), vec![xfer(m2, content(num()))])),
+        ]));
+    }
+    // a declaration named like the built-in function: the declaration comes first in the
+    // lookup order (reporting it as a duplicate of the built-in is tolerated)
+    programs.push(single(vec![
+        fun("concat", &["a", "b"], var("b")),
+        Stmt::Res(rel(app("concat", vec![uri_lit(&["left"]), uri_lit(&["right"])]), vec![xfer(Method::Get, E::Content(vec![], None))])),
+    ]));
+    programs.push(single(vec![
+        Stmt::Res(rel(app("concat", vec![uri_lit(&["left"]), uri_lit(&["right"])]), vec![xfer(Method::Get, E::Content(vec![], None))])),
+        fun("concat", &["a", "b"], var("a")),
+    ]));
     // paths that differ only by a trailing slash are different resources with different ids
     programs.push(single(vec![
         Stmt::Res(rel(uri_lit(&["a"]), vec![ok.clone()])),
